@@ -24,6 +24,76 @@ type File struct {
 	Path    string `json:"path"`
 	OldPath string `json:"old_path,omitempty"` // set when renamed
 	Ops     []Op   `json:"ops"`
+	// OldNoEOL / NewNoEOL: that version of the file does not end with a newline
+	// (the diff then carries git's "\ No newline at end of file" marker).
+	OldNoEOL bool `json:"old_no_eol,omitempty"`
+	NewNoEOL bool `json:"new_no_eol,omitempty"`
+}
+
+// NoEOLMarker is the line git prints after the last line of a side that lacks a final newline.
+const NoEOLMarker = `\ No newline at end of file`
+
+// Normalize puts every block of changed lines into git's order (all removed
+// lines of the block, then all added ones) and makes the last line consistent
+// with the no-newline flags: a kept last line cannot differ in its line ending,
+// so it becomes a removed + added pair when only one side lacks the newline.
+func (f *File) Normalize() {
+	lastOld, lastNew := f.lastIdx()
+	if lastOld >= 0 && lastOld == lastNew && f.Ops[lastOld].K == " " && f.OldNoEOL != f.NewNoEOL {
+		t := f.Ops[lastOld].T
+		f.Ops = append(f.Ops[:lastOld:lastOld], Op{K: "-", T: t}, Op{K: "+", T: t})
+	} else {
+		// a kept line that is last on one side only would need two different endings: drop the flags
+		if f.OldNoEOL && lastOld >= 0 && f.Ops[lastOld].K == " " && !(lastOld == lastNew && f.NewNoEOL) {
+			f.OldNoEOL = false
+		}
+		if f.NewNoEOL && lastNew >= 0 && f.Ops[lastNew].K == " " && !(lastOld == lastNew && f.OldNoEOL) {
+			f.NewNoEOL = false
+		}
+	}
+	if lastOld < 0 {
+		f.OldNoEOL = false
+	}
+	if lastNew < 0 {
+		f.NewNoEOL = false
+	}
+	out := make([]Op, 0, len(f.Ops))
+	for i := 0; i < len(f.Ops); {
+		if f.Ops[i].K == " " {
+			out = append(out, f.Ops[i])
+			i++
+			continue
+		}
+		j := i
+		for j < len(f.Ops) && f.Ops[j].K != " " {
+			j++
+		}
+		for _, op := range f.Ops[i:j] {
+			if op.K == "-" {
+				out = append(out, op)
+			}
+		}
+		for _, op := range f.Ops[i:j] {
+			if op.K == "+" {
+				out = append(out, op)
+			}
+		}
+		i = j
+	}
+	f.Ops = out
+}
+
+func (f File) lastIdx() (lastOld, lastNew int) {
+	lastOld, lastNew = -1, -1
+	for i, op := range f.Ops {
+		if op.K != "+" {
+			lastOld = i
+		}
+		if op.K != "-" {
+			lastNew = i
+		}
+	}
+	return lastOld, lastNew
 }
 
 // LineInfo gives, for one op, its line numbers on both sides (0 = absent).
@@ -81,8 +151,21 @@ func join(lines []string) string {
 	return strings.Join(lines, "\n") + "\n"
 }
 
-func (f File) OldContent() string { return join(f.OldLines()) }
-func (f File) NewContent() string { return join(f.NewLines()) }
+func (f File) OldContent() string {
+	s := join(f.OldLines())
+	if f.OldNoEOL {
+		s = strings.TrimSuffix(s, "\n")
+	}
+	return s
+}
+
+func (f File) NewContent() string {
+	s := join(f.NewLines())
+	if f.NewNoEOL {
+		s = strings.TrimSuffix(s, "\n")
+	}
+	return s
+}
 
 // Added returns the new-side numbers of added lines, Removed the old-side
 // numbers of removed lines.
@@ -177,6 +260,7 @@ func rng(start, count int) string {
 // both numbers).
 func (f File) Patch(ctx int, forceCounts bool) string {
 	lines := f.Lines()
+	lastOld, lastNew := f.lastIdx()
 	var b strings.Builder
 	for _, h := range f.hunks(ctx) {
 		var os, ns, oc, nc int
@@ -230,9 +314,14 @@ func (f File) Patch(ctx int, forceCounts bool) string {
 			fmt.Fprintf(&b, "@@ -%s +%s @@\n", rng(os, oc), rng(ns, nc))
 		}
 		for i := h.from; i < h.to; i++ {
-			b.WriteString(f.Ops[i].K)
+			k := f.Ops[i].K
+			b.WriteString(k)
 			b.WriteString(f.Ops[i].T)
 			b.WriteByte('\n')
+			if (f.OldNoEOL && i == lastOld && k != "+") || (f.NewNoEOL && i == lastNew && k != "-") {
+				b.WriteString(NoEOLMarker)
+				b.WriteByte('\n')
+			}
 		}
 	}
 	return b.String()
